@@ -65,8 +65,9 @@ func (s *UtxoStore) VerifWF() bool { return s != nil && s.bucketMeta != nil }
 //@   ensures err == nil ==> bytesEq(cred.outPoint.Hash, 0, old(k), 0, 32) && cred.block.Height == old(be64(k, 32))
 //@   ensures err == nil ==> bytesEq(cred.block.Hash, 0, old(k), 40, 32) && cred.outPoint.Index == old(be32(k, 72))
 
+// (C03: signing a transaction that spends a pending output finds that output through this key codec)
 //@ func readUnminedCreditKey
-//@   props C09 C19
+//@   props C09 C03 C19
 //@   requires cred != nil
 //@   modifies &cred.outPoint
 //@   ensures (err != nil) == (len(k) != 36)
@@ -554,10 +555,11 @@ func (s *UtxoStore) VerifWF() bool { return s != nil && s.bucketMeta != nil }
 
 // ---- C19: helpers of the notification handler ----
 //@ func NewTxRecordFromMsgTx
-//@   props C19
+//@   props C19 C01
 //@   requires msgTx != nil
 //@   ensures result1 == nil && result0 != nil && fresh(result0) && sameSlice(result0.MsgTx.TxOut, msgTx.TxOut) && sameSlice(result0.MsgTx.TxIn, msgTx.TxIn)
 //@   ensures len(result0.RelevantTxIn) == 0 && len(result0.RelevantTxOut) == 0 && fresh(result0.RelevantTxIn) && fresh(result0.RelevantTxOut)
+//@   ensures[C01] strOf(result0.Hash[:]) == ghosts("txid", msgTx)
 
 //@ func (*UtxoStore).ExistCreditFromTx
 //@   props C19
